@@ -333,6 +333,26 @@ def ord_eq_rule(rep, F):
         n += 1
         rep.inst("ORD-EQ")
         short = adt.rsplit("::", 1)[-1]
+
+        def normalisers(im, mname):
+            """order-normalising / re-collecting callees of a hand-written impl (sorted, collect, iter ...): comparing a normalised view
+            in one relation and the raw sequence in another makes the relations disagree although they read the same field"""
+            if im is None or im.get("derive"):
+                return frozenset()
+            mid = [m["id"] for m in im["methods"] if m["name"] == mname]
+            if not mid or mid[0] not in F.fns:
+                return frozenset()
+            out = set()
+            for sub in [mid[0]] + [c for c in F.fns if c.startswith(mid[0] + "::{closure")]:
+                for c in F.calls(sub):
+                    nm = (c.to or "").rsplit("::", 1)[-1]
+                    if nm in ("sorted", "sorted_by", "sorted_by_key", "sort", "sort_by", "sort_unstable", "collect", "collect_vec", "iter", "into_iter", "from_iter", "dedup", "rev", "unique"):
+                        out.add(nm)
+            return frozenset(out)
+        ns = {"eq": normalisers(eq, "eq"), "Ord": normalisers(od, "cmp") if od else None, "Hash": normalisers(hs, "hash") if hs else None}
+        for nm_ in ("Ord", "Hash"):
+            if ns[nm_] is not None and ns[nm_] != ns["eq"]:
+                rep.violation("ORD-EQ", "%s|%s|normalises|%s" % (short, nm_, ",".join(sorted(ns[nm_] ^ ns["eq"]))), "%s: %s compares a re-ordered / re-collected view (%s) while equality compares %s: values that are equal can be ordered apart, or values that differ can share a key, so an Ord-keyed builder map and an Eq/Hash de-duplicating set disagree on how many entries there are" % (short, nm_, sorted(ns[nm_]) or "the raw field", sorted(ns["eq"]) or "the raw field"), {})
         for nm, b in (("Ord", o), ("Hash", h)):
             if b is None:
                 continue
